@@ -183,6 +183,7 @@ def oracle(case, obs):
     created, wquit = [], set()
     outstanding = {}            # worker -> number of do() calls whose task has not run yet
     coord_quit = 0
+    prev = None
     for k, (lab, s) in enumerate(zip(labels, steps)):
         evs, _, stat = s.partition("/")
         idle_n, busy_n, back_n = map(int, stat.split("."))
@@ -249,6 +250,13 @@ def oracle(case, obs):
         live = len(created) - len(wquit)
         if idle_n + busy_n != live:
             return Failure(case, where + f"statistics idle+busy={idle_n + busy_n} but {live} live workers", "statistics")
+        # tasks wait in the backlog only while no worker is idle, and no worker is released while they wait
+        if back_n > 0 and idle_n > 0:
+            return Failure(case, where + f"{back_n} backlogged tasks while {idle_n} workers are idle", "idle-with-backlog")
+        if prev is not None and prev[2] > 0 and busy_n < prev[1]:
+            return Failure(case, where + f"a busy worker was released ({prev[1]} -> {busy_n} busy) while {prev[2]} tasks "
+                           "were waiting in the backlog", "worker-released-with-backlog")
+        prev = (idle_n, busy_n, back_n)
     # quiescence (the case ended with a drain): nothing left to perform
     if case["ops"] and case["ops"][-1][0] == "drain":
         missing = [t for t in accepted if t not in ran]
